@@ -5,3 +5,4 @@ pub mod props;
 pub mod runner;
 pub mod thin;
 pub mod bytefuzz;
+pub mod giant;
